@@ -44,9 +44,27 @@ Dmls8 == {[k |-> "insert", t |-> t, cols |-> cs, vals |-> vs, where |-> <<>>] :
          \* column "c" is declared VARCHAR(2147483648): its length does not fit the catalog's INT column, so the statement
          \* is refused after it started; whatever follows it in the session must still get an answer
          \cup {[k |-> "create", t |-> t, cols |-> cs, vals |-> <<>>, where |-> <<>>] : t \in {"t8", "t9"}, cs \in {<<"a">>, <<"a", "a">>, <<"a", "b">>, <<"a", "c">>, <<"c">>}}
+\* data-changing statements aimed at the catalog tables the engine keeps inside every database (the same SQL that reads them
+\* - SELECT ... FROM sys_pages - is part of the documented surface): "any statement that parses, against any database state"
+\* includes these, and the states they leave behind.  As texts (TLC concatenates strings).
+CatNames == {"zz", "t8"}
+CatWheres == {"", " WHERE table_name = 't8'", " WHERE table_name = 'sys_pages'", " WHERE table_name = 'sys_schema'"}
+CatDmls8 ==
+  {"INSERT INTO sys_pages (table_name) VALUES ('" \o n \o "')" : n \in CatNames}
+  \cup {"INSERT INTO sys_pages (table_name, file_offset) VALUES ('" \o n \o "', " \o o \o ")" : n \in CatNames, o \in {"0", "4096", "8192", "123", "999999", "-4096"}}
+  \cup {"INSERT INTO sys_schema (table_name, field_name, field_type) VALUES ('" \o n \o "', '" \o f \o "', " \o ty \o ")" : n \in CatNames, f \in {"a", "q"}, ty \in {"0", "9"}}
+  \cup {"INSERT INTO sys_schema (table_name) VALUES ('t8')", "INSERT INTO sys_schema (field_name) VALUES ('q')"}
+  \cup {"UPDATE sys_pages SET " \o su \o w : su \in {"file_offset = 0", "file_offset = 4096", "file_offset = 123", "file_offset = 999999", "table_name = 'zz'", "table_name = 'sys_schema'"}, w \in CatWheres}
+  \cup {"UPDATE sys_schema SET " \o su \o w : su \in {"field_type = 9", "field_type = 1", "field_name = 'a'", "table_name = 'zz'", "field_length = -1"}, w \in CatWheres}
+  \cup {"DELETE FROM " \o t \o w : t \in {"sys_pages", "sys_schema"}, w \in CatWheres}
+\* ... each followed, in the same session, by statements that read and write through the catalog
+CatProbes8 == <<"SELECT * FROM t8", "SELECT * FROM zz", "SELECT a FROM t8 WHERE a = 1", "INSERT INTO t8 (a) VALUES (1)", "UPDATE t8 SET a = 2",
+                "DELETE FROM t8 WHERE a = 2", "CREATE TABLE t9 (a INT)", "INSERT INTO t9 VALUES (1)", "SELECT * FROM t9", "INSERT INTO zz VALUES (1)",
+                "SELECT * FROM sys_pages", "SELECT * FROM sys_schema">>
 \* LIMIT / OFFSET values incl. the largest integer the parser accepts (code -2; TLC integers are 32 bit)
 LimOffs8 == LimOffs \cup {[limit |-> -2, offset |-> o] : o \in {-1, 0, 1, 5}} \cup {[limit |-> l, offset |-> -2] : l \in {-1, 1}}
 
 ASSUME /\ Out("tables8", Tables8) /\ Out("wheres8", Wheres8) /\ Out("lists8", Lists8) /\ Out("orders8", Orders8)
        /\ Out("groups8", Groups8) /\ Out("froms8", Froms8) /\ Out("dmls8", Dmls8) /\ Out("limoffs8", LimOffs8)
+       /\ Out("catdmls8", CatDmls8) /\ Out("catprobes8", {CatProbes8})
 =============================================================================
